@@ -58,6 +58,12 @@ def gen_lines(r, n: int, p_corrupt: float, ascii_only: bool = False, p_schema: f
                 if f is None:
                     continue
                 line, src = f"{gen.rssi(r)} {f}", "schema"
+        elif r.random() < 0.3:
+            dtm, body = r.choice(_by_code[focus]) if (focus and _by_code.get(focus) and r.random() < 0.5) else r.choice(cor)
+            body = gen.mutate_field(body, r, CODES_SCHEMA)
+            if body is None:
+                continue
+            line, src = (body if body[:3] != "..." else gen.rssi(r) + body[3:]), "mutfield"
         elif r.random() < p_schema:
             f = gen.schema_frame(r, CODES_SCHEMA)
             if f is None:
@@ -484,6 +490,22 @@ def monitor_c02(ctx, lines: list[str]) -> None:
             continue
         if str(cmd) != frame:
             ctx.violate("C02", "print_parse", "command", f"str(Command({frame!r})) = {str(cmd)!r}")
+        # the attrs constructor and the CLI short form must assemble the very same text
+        a0, a1, a2 = frame[7:16], frame[17:26], frame[27:36]
+        seqn = frame[3:6]
+        try:
+            c3 = Command._from_attrs(frame[:2], frame[37:41], frame[46:], addr0=a0, addr1=a1, addr2=a2,
+                                     seqn=(int(seqn) if seqn.isdigit() else seqn))
+            if str(c3) != frame:
+                ctx.violate("C02", "print_parse", "from_attrs", f"_from_attrs(...seqn={seqn!r}) printed {str(c3)!r}, expected {frame!r}")
+            cli = f"{frame[:2]} {seqn} {a0} {a1} {a2} {frame[37:41]} {frame[46:]}"
+            c4 = Command.from_cli(cli)
+            if str(c4) != frame:
+                ctx.violate("C02", "print_parse", "from_cli", f"from_cli({cli!r}) printed {str(c4)!r}, expected {frame!r}")
+        except exc.CommandInvalid:
+            pass
+        except Exception as err:  # noqa
+            ctx.violate("C02", "command_exc", "from_attrs:" + exc_sig(err), f"{frame!r}: {type(err).__name__}: {err}")
         try:
             cmd2 = Command(str(cmd))
             if str(cmd2) != str(cmd) or cmd2 != cmd and hasattr(cmd, "__eq__") and type(cmd).__eq__ is not object.__eq__:
